@@ -350,6 +350,39 @@ pub fn for_each_workspace(tier: Tier, ctx: &mut Ctx, mut f: impl FnMut(&mut Ctx,
             }
         }
     }
+    // 2e. every integer position with every sign / separator / edge literal; deep nests of every value form
+    // that can hold a value (the analysis of a nest is linear in its depth)
+    for text in space::integer_position_texts() {
+        if ctx.mine() && !f(ctx, &WsCase::single(&format!("class C<int a = 0> {{ bits<8> X = 0; }}\n{text}"), "integer-position")) {
+            return;
+        }
+    }
+    let nests: &[(&str, &str)] = &[
+        ("!cond(true: ", ")"),
+        ("!cond(", ": 1)"),
+        ("!if(1, ", ", 0)"),
+        ("!if(", ", 1, 0)"),
+        ("[", "]"),
+        ("!add(", ", 1)"),
+        ("(op ", ")"),
+        ("!foreach(e, [", "], e)"),
+        ("!listconcat([", "], [])"),
+        ("{", "}"),
+        ("!head([", "])"),
+        ("C<", ">.f"),
+    ];
+    for (open, close) in nests {
+        for depth in [3usize, 12, 40] {
+            if !ctx.mine() {
+                continue;
+            }
+            let nest = format!("{}1{}", open.repeat(depth), close.repeat(depth));
+            let text = format!("def op;\nclass C<int a = 0> {{ int f = a; }}\ndefvar v = {nest};\ndef t : C<{nest}> {{ int x = v; let f = {nest}; }}\n");
+            if !f(ctx, &WsCase::single(&text, "value-nest")) {
+                return;
+            }
+        }
+    }
     // 3. seeds and small corpus files, whole
     for (name, text) in files.seeds.iter().chain(files.corpus.iter().filter(|(_, t)| t.len() <= small)) {
         if ctx.mine() && !f(ctx, &seed_workspace(&files, name, text, "seed")) {
